@@ -39,13 +39,15 @@ type Bucket struct {
 }
 
 type DB struct {
-	top      []*Bucket
-	FaultAt  int // 0 = never; otherwise the FaultAt-th fallible call fails
-	Calls    int
-	inWrite  bool
-	saved    []savedBucket
-	Commits  int
-	Rollback int
+	top         []*Bucket
+	FaultAt     int // 0 = never; otherwise the FaultAt-th fallible call fails
+	Calls       int
+	FaultWrites bool // Put and Delete are fallible calls too (the interface lets them fail; the LevelDB driver's only fail on bad arguments)
+	NoFault     bool // while set, fallible calls are neither counted nor failed
+	inWrite     bool
+	saved       []savedBucket
+	Commits     int
+	Rollback    int
 	// versioned reads (C17): when ReadHook != nil it is consulted by Get and by iterator creation
 	ReadHook func(b *Bucket, iter bool) []Ent
 }
@@ -59,6 +61,9 @@ type savedBucket struct {
 func New() *DB { return &DB{} }
 
 func (d *DB) fault() bool {
+	if d.NoFault {
+		return false
+	}
 	d.Calls++
 	return d.FaultAt != 0 && d.Calls == d.FaultAt
 }
@@ -194,6 +199,9 @@ func (t *Tx) CreateTopLevelBucket(name string) (mwdb.Bucket, error) {
 	return t.db.Top(name), nil
 }
 
+// VerifSuspendFaults: used by cut wrappers whose storage faults are represented by the cut's own failure result.
+func (t *Tx) VerifSuspendFaults(on bool) { t.db.NoFault = on }
+
 func (t *Tx) DeleteTopLevelBucket(name string) error { return mwdb.ErrNotSupported }
 
 func (t *Tx) Rollback() error {
@@ -316,6 +324,9 @@ func (b *Bucket) Put(key, value []byte) error {
 	if len(key) == 0 {
 		return mwdb.ErrIllegalKey
 	}
+	if b.db.FaultWrites && b.db.fault() {
+		return ErrInjected
+	}
 	k := append([]byte(nil), key...)
 	v := append([]byte(nil), value...)
 	for i := range b.Ents {
@@ -348,6 +359,9 @@ func (b *Bucket) Get(key []byte) ([]byte, error) {
 func (b *Bucket) Delete(key []byte) error {
 	if !b.db.inWrite {
 		return mwdb.ErrWriteNotAllowed
+	}
+	if b.db.FaultWrites && b.db.fault() {
+		return ErrInjected
 	}
 	for i := range b.Ents {
 		if bytes.Equal(b.Ents[i].K, key) {
